@@ -760,4 +760,142 @@ Proof.
   rewrite run_stuck by exact A. split; assumption.
 Qed.
 
+(* ---------- the shape of the transcript ---------- *)
+Definition tg (l : list (bool * msg)) : list tr_tag := map (fun dm => tr_tag_of digest (snd dm)) l.
+
+Lemma tg_app a b : tg (a ++ b) = tg a ++ tg b.
+Proof. apply map_app. Qed.
+
+Lemma acc_app pipe : forall l1 q l2, tr_accepts_from pipe q (l1 ++ l2) =
+  match tr_accepts_from pipe q l1 with Some q' => tr_accepts_from pipe q' l2 | None => None end.
+Proof.
+  induction l1 as [|t l1 IH]; intros q l2; [reflexivity|]. cbn [app tr_accepts_from].
+  destruct (tr_delta pipe q t); [apply IH | reflexivity].
+Qed.
+
+Definition between_q (q : tr_q) : Prop := q = Q2 \/ q = Q4.
+
+Lemma tag_reply c ln sz : tr_tag_of digest (name_reply c ln sz) = TgSucc.
+Proof. unfold name_reply. destruct (tr_json_names c); reflexivity. Qed.
+
+Lemma tg_frames dir : forall fs : list (list byte), all_nonempty fs = true ->
+  tg (tag_out dir (map (TrData digest) fs)) = map (fun _ => TgData) fs.
+Proof.
+  induction fs as [|f fs IH]; intro Hne; [reflexivity|].
+  cbn [all_nonempty forallb] in Hne. apply andb_true_iff in Hne as [Hf Hr]. destruct (nonempty_cons f Hf) as (x & fr & ->).
+  cbn [map tr_tag_out tg snd tr_tag_of]. f_equal. apply (IH Hr).
+Qed.
+
+Lemma tg_acks : forall (fs : list (list byte)) steps, tg (tag_out false (fst (acks_go fs steps))) = map (fun _ => TgAck) fs.
+Proof.
+  induction fs as [|f fs IH]; intro steps; [reflexivity|].
+  cbn [acks_go]. specialize (IH (tl steps)). destruct (acks_go fs (tl steps)) as [a s']. cbn [fst] in *.
+  cbn [map tr_tag_out tg snd tr_tag_of]. f_equal. exact IH.
+Qed.
+
+Lemma tg_ints (l : list N) : tg (tag_out false (map (TrSuccInt digest) l)) = map (fun _ => TgSucc) l.
+Proof. induction l as [|x l IH]; [reflexivity|]. cbn [map tr_tag_out tg snd tr_tag_of]. f_equal. exact IH. Qed.
+
+Lemma acc_datas {A} : forall (l : list A) q rest, q = Q6 \/ q = Q7 ->
+  tr_accepts_from true q (map (fun _ => TgData) l ++ TgFinish :: rest) = tr_accepts_from true Q8 rest.
+Proof.
+  induction l as [|x l IH]; intros q rest Hq; cbn [map app tr_accepts_from].
+  - destruct Hq as [-> | ->]; reflexivity.
+  - assert (Hd : tr_delta true q TgData = Some Q7) by (destruct Hq as [-> | ->]; reflexivity).
+    rewrite Hd. apply IH. right; reflexivity.
+Qed.
+
+Lemma acc_ackl {A} : forall (l : list A) rest,
+  tr_accepts_from true Q8 (map (fun _ => TgAck) l ++ rest) = tr_accepts_from true Q8 rest.
+Proof. induction l as [|x l IH]; intro rest; [reflexivity|]. cbn [map app tr_accepts_from tr_delta]. apply IH. Qed.
+
+Lemma acc_succs {A} : forall (l : list A) q rest, q = Q8 \/ q = Q9 ->
+  tr_accepts_from true q (map (fun _ => TgSucc) l ++ TgSucc :: rest) = tr_accepts_from true Q9 rest.
+Proof.
+  induction l as [|x l IH]; intros q rest Hq; cbn [map app tr_accepts_from].
+  - destruct Hq as [-> | ->]; reflexivity.
+  - assert (Hd : tr_delta true q TgSucc = Some Q9) by (destruct Hq as [-> | ->]; reflexivity).
+    rewrite Hd. apply IH. right; reflexivity.
+Qed.
+
+Lemma acc_dir c e ln q rest : between_q q ->
+  tr_accepts_from (tr_pipeline c) q (tg (dir_log c e ln) ++ rest) = tr_accepts_from (tr_pipeline c) Q4 rest.
+Proof.
+  intro Hq. unfold dir_log. cbn [tg map snd tr_tag_of app tr_accepts_from]. rewrite tag_reply.
+  destruct Hq as [-> | ->]; reflexivity.
+Qed.
+
+Lemma tg_file_v2 c e sc ln : tg (file_log_v2 c e sc ln) =
+  [TgName; TgSucc; TgSize; TgSucc] ++ tg (tag_out true (snd (compress c e sc)))
+  ++ map (fun _ => TgData) (frames c e sc) ++ [TgFinish]
+  ++ map (fun _ => TgAck) (frames c e sc) ++ [TgAck]
+  ++ map (fun _ => TgSucc) (prefinal_of e sc) ++ [TgSucc] ++ [TgMd5; TgSucc].
+Proof.
+  unfold file_log_v2. cbv zeta. rewrite !tg_app, !tag_out_app, !tg_app.
+  rewrite (tg_frames true (frames c e sc) (frames_nonempty _ _ _)), tg_acks, tg_ints.
+  cbn [tg map snd tr_tag_of tr_tag_out]. rewrite tag_reply. unfold finish_ack. cbn [tr_tag_of].
+  repeat rewrite <- app_assoc. reflexivity.
+Qed.
+
+Lemma acc_file_v2 c e sc ln q rest : tr_pipeline c = true -> between_q q ->
+  tr_accepts_from (tr_pipeline c) q (tg (file_log_v2 c e sc ln) ++ rest) = tr_accepts_from (tr_pipeline c) Q2 rest.
+Proof.
+  intros Hp Hq. rewrite Hp, tg_file_v2. repeat rewrite <- app_assoc. cbn [app tr_accepts_from].
+  assert (H1 : tr_delta true q TgName = Some Q3) by (destruct Hq as [-> | ->]; reflexivity).
+  rewrite H1. cbn [tr_delta].
+  assert (Hc : exists q', (q' = Q6 \/ q' = Q7) /\ forall r,
+     tr_accepts_from true Q6 (tg (tag_out true (snd (compress c e sc))) ++ r) = tr_accepts_from true q' r).
+  { unfold tr_compress. destruct (tr_is_compress_fixed c (te_size e)) as [[|] cp]; cbn [snd].
+    - exists Q6. split; [left; reflexivity | reflexivity].
+    - exists Q7. split; [right; reflexivity | reflexivity]. }
+  destruct Hc as (q' & Hq' & Hc). rewrite Hc, (acc_datas _ _ _ Hq'), acc_ackl.
+  cbn [tr_accepts_from tr_delta]. rewrite acc_succs by (left; reflexivity). reflexivity.
+Qed.
+
+(* legacy exchange: DATA SUCC DATA SUCC ... MD5 *)
+Lemma tag_data_any f : tr_tag_of digest (TrData digest f) = TgData \/ tr_tag_of digest (TrData digest f) = TgFinish.
+Proof. destruct f; [right | left]; reflexivity. Qed.
+
+Lemma acc_v1_log c e : forall chs ch rest,
+  tr_accepts_from false Q11 (tg (v1_log c e ch chs) ++ rest) = tr_accepts_from false Q10 rest.
+Proof.
+  induction chs as [|ch2 chs IH]; intros ch rest; cbn [v1_log tg map snd app tr_tag_of tr_accepts_from tr_delta]; [reflexivity|].
+  destruct (tr_v1_payload zl c ch2); apply IH.
+Qed.
+
+Lemma acc_file_v1 c e sc ln q rest : tr_pipeline c = false -> between_q q ->
+  tr_accepts_from (tr_pipeline c) q (tg (file_log_v1 c e sc ln) ++ rest) = tr_accepts_from (tr_pipeline c) Q2 rest.
+Proof.
+  intros Hp Hq. rewrite Hp. unfold file_log_v1. rewrite !tg_app. repeat rewrite <- app_assoc.
+  cbn [tg map snd tr_tag_of app tr_accepts_from]. rewrite tag_reply.
+  assert (H1 : tr_delta false q TgName = Some Q3) by (destruct Hq as [-> | ->]; reflexivity).
+  rewrite H1. cbn [tr_delta]. unfold v1_data_log. destruct (tr_v1_chunks e sc) as [|ch chs].
+  - reflexivity.
+  - cbn [map snd app tr_accepts_from tr_tag_of].
+    destruct (tr_v1_payload zl c ch); cbn [tr_delta]; apply acc_v1_log.
+Qed.
+
+Lemma acc_all c : forall ess per q rest, between_q q ->
+  exists q', between_q q' /\
+    tr_accepts_from (tr_pipeline c) q (tg (all_log c ess per) ++ rest) = tr_accepts_from (tr_pipeline c) q' rest.
+Proof.
+  induction ess as [|[e sc] ess IH]; intros per q rest Hq; [exists q; split; [exact Hq | reflexivity]|].
+  destruct per as [|ln per]; [exists q; split; [exact Hq | reflexivity]|].
+  cbn [all_log]. rewrite tg_app, <- app_assoc. unfold entry_log. cbn [fst snd].
+  destruct (te_isdir e).
+  - rewrite (acc_dir c e ln q _ Hq). apply IH. right; reflexivity.
+  - destruct (tr_pipeline c) eqn:Hp.
+    + pose proof (fun r => acc_file_v2 c e sc ln q r Hp Hq) as Hx. rewrite Hp in Hx. rewrite Hx. apply IH. left; reflexivity.
+    + pose proof (fun r => acc_file_v1 c e sc ln q r Hp Hq) as Hx. rewrite Hp in Hx. rewrite Hx. apply IH. left; reflexivity.
+Qed.
+
+Theorem shape_ok c ess per all : tr_shape_ok digest (tr_pipeline c) (full_log c ess per all) = true.
+Proof.
+  unfold tr_shape_ok, full_log. fold (tg ([(true, TrNum digest (N.of_nat (length ess))); (false, TrSuccInt digest (N.of_nat (length ess)))]
+    ++ all_log c ess per ++ [(tc_upload c, TrExit digest all)])).
+  rewrite tg_app. cbn [tg map snd tr_tag_of app tr_accepts_from tr_delta]. fold (tg (all_log c ess per ++ [(tc_upload c, TrExit digest all)])).
+  rewrite tg_app. destruct (acc_all c ess per Q2 (tg [(tc_upload c, TrExit digest all)]) (or_introl eq_refl)) as (q' & Hq' & ->).
+  destruct Hq' as [-> | ->]; reflexivity.
+Qed.
+
 End TransferProofs.
